@@ -67,6 +67,11 @@ fn shown<E: std::fmt::Display + std::fmt::Debug>(e: &E) {
     let b = format!("{:?}", e);
     std::hint::black_box((a, b));
 }
+fn shown_mpe(e: &wow_srp::error::MatchProofsError) {
+    shown(e);
+    let s = wow_srp::error::SrpError::from(wow_srp::error::MatchProofsError { client_proof: e.client_proof, server_proof: e.server_proof });
+    shown(&s);
+}
 fn pkerr(e: &InvalidPublicKeyError) -> &'static str {
     shown(e);
     std::hint::black_box(wow_srp::error::SrpError::from(match e {
@@ -617,7 +622,13 @@ fn hdr_op(o: &mut HObj, tok: &str) -> R {
             };
             let a = e.is_pair_of(&od);
             let b = d.is_pair_of(&oe);
-            let u = e.unsplit(od).is_ok();
+            let u = match e.unsplit(od) {
+                Ok(_) => true,
+                Err(er) => {
+                    shown(&er);
+                    false
+                }
+            };
             format!("{}:{}:{}", a as u8, b as u8, if u { "ok" } else { "err" })
         }
         ["clone"] => {
@@ -677,7 +688,14 @@ fn hash_of<T: Hash>(t: &T) -> u64 {
 }
 
 fn card_of(d: &str, h: &str, w: &str, data: &str) -> Result<Option<matrix_card::MatrixCard>, String> {
-    Ok(matrix_card::MatrixCard::from_data(num(d)?, num(h)?, num(w)?, unhex(data)))
+    let c = matrix_card::MatrixCard::from_data(num(d)?, num(h)?, num(w)?, unhex(data));
+    if let Some(c) = &c {
+        // the getters report what the card was built with
+        if c.digit_count() != num::<u8>(d)? || c.height() != num::<u8>(h)? || c.width() != num::<u8>(w)? {
+            return Err("DISAGREE card getters".into());
+        }
+    }
+    Ok(c)
 }
 
 fn lcg_next(x: u64) -> u64 {
@@ -704,9 +722,14 @@ fn run_op(a: &[&str]) -> R {
                         format!("ok {}", hex(as_ref.as_bytes()))
                     }
                 }
-                Err(e @ wow_srp::error::NormalizedStringError::StringTooLong) => { shown(e); "err toolong".to_string() }
+                Err(e @ wow_srp::error::NormalizedStringError::StringTooLong) => {
+                    shown(e);
+                    shown(&wow_srp::error::SrpError::from(wow_srp::error::NormalizedStringError::StringTooLong));
+                    "err toolong".to_string()
+                }
                 Err(e @ wow_srp::error::NormalizedStringError::CharacterNotAllowed(c)) => {
                     shown(e);
+                    shown(&wow_srp::error::SrpError::from(wow_srp::error::NormalizedStringError::CharacterNotAllowed(*c)));
                     format!("err char {}", *c as u32)
                 }
             };
@@ -845,7 +868,7 @@ fn run_op(a: &[&str]) -> R {
                         hex(&m2),
                         hex(srv.reconnect_challenge_data())
                     ),
-                    Err(e) => { shown(&e); format!("err {} {}", hex(&e.client_proof), hex(&e.server_proof)) }
+                    Err(e) => { shown_mpe(&e); format!("err {} {}", hex(&e.client_proof), hex(&e.server_proof)) }
                 },
             }
         }
@@ -862,7 +885,7 @@ fn run_op(a: &[&str]) -> R {
                 let cc = SrpClientChallenge::new(ns(u)?, ns(p)?, num(g)?, arr(n)?, pb, arr(salt)?);
                 match cc.verify_server_proof(arr(m2)?) {
                     Ok(cl) => format!("ok {}", hex(cl.session_key())),
-                    Err(e) => { shown(&e); format!("err {} {}", hex(&e.client_proof), hex(&e.server_proof)) }
+                    Err(e) => { shown_mpe(&e); format!("err {} {}", hex(&e.client_proof), hex(&e.server_proof)) }
                 }
             }
         },
@@ -998,7 +1021,7 @@ fn run_op(a: &[&str]) -> R {
                     let sv = seed.seed();
                     match seed.into_server_header_crypto(&un, arr(k)?, arr(proof)?, num(cs)?) {
                         Ok(c) => format!("ok {} {}", sv, HObj::VComb(c).probe()),
-                        Err(e) => { shown(&e); format!("err {} {} {}", hex(&e.client_proof), hex(&e.server_proof), sv) }
+                        Err(e) => { shown_mpe(&e); format!("err {} {} {}", hex(&e.client_proof), hex(&e.server_proof), sv) }
                     }
                 }
                 "t" => {
@@ -1006,7 +1029,7 @@ fn run_op(a: &[&str]) -> R {
                     let sv = seed.seed();
                     match seed.into_server_header_crypto(&un, arr(k)?, arr(proof)?, num(cs)?) {
                         Ok(c) => format!("ok {} {}", sv, HObj::TComb(c).probe()),
-                        Err(e) => { shown(&e); format!("err {} {} {}", hex(&e.client_proof), hex(&e.server_proof), sv) }
+                        Err(e) => { shown_mpe(&e); format!("err {} {} {}", hex(&e.client_proof), hex(&e.server_proof), sv) }
                     }
                 }
                 _ => {
@@ -1014,7 +1037,7 @@ fn run_op(a: &[&str]) -> R {
                     let sv = seed.seed();
                     match seed.into_server_header_crypto(&un, arr(k)?, arr(proof)?, num(cs)?) {
                         Ok(c) => format!("ok {} {}", sv, HObj::WSrv(c).probe()),
-                        Err(e) => { shown(&e); format!("err {} {} {}", hex(&e.client_proof), hex(&e.server_proof), sv) }
+                        Err(e) => { shown_mpe(&e); format!("err {} {} {}", hex(&e.client_proof), hex(&e.server_proof), sv) }
                     }
                 }
             }
